@@ -35,7 +35,7 @@ func (c13) Batches(tier string, seed uint64) []core.Batch {
 
 func (c13) Mandatory(tier string) []string {
 	return []string{"members:0", "members:1", "members:2-4", "members:5+", "size:0", "size:odd", "last-odd:padded", "last-odd:unpadded", "name:16-bytes", "name:slash-terminated",
-		"blank-numeric-fields", "zero-padded-numeric-fields", "member-after-odd", "pad-byte:not-newline-then-member", "data:magic-inside", "delivery:bytes.Reader", "delivery:os.File", "delivery:exact-EOF-ReaderAt", "delivery:bytes.Reader:direct-after-read", "delivery:os.File:direct-after-read", "delivery:SectionReader:direct", "name:inner-slash", "nested-archive-through-member-reader", "size:>=2GiB", "size:>=4GiB", "size:>=9GiB",
+		"blank-numeric-fields", "zero-padded-numeric-fields", "member-after-odd", "pad-byte:not-newline-then-member", "data:magic-inside", "delivery:bytes.Reader", "delivery:os.File", "delivery:exact-EOF-ReaderAt", "delivery:bytes.Reader:direct-after-read", "delivery:os.File:direct-after-read", "delivery:SectionReader:direct", "name:inner-slash", "name:ends-in-slash-before-the-terminator", "nested-archive-through-member-reader", "size:>=2GiB", "size:>=4GiB", "size:>=9GiB",
 		"read:immediately", "read:after-advance", "read:continued-after-advance", "read:reseek", "read:ReadAt"}
 }
 
@@ -62,6 +62,10 @@ func genArMembers(r *core.Rand, maxMembers int) []model.ArMember {
 		}
 		if r.Chance(1, 4) && len(m.Name) < 16 {
 			m.Slash = true
+		}
+		if r.Chance(1, 24) {
+			// a name that itself ends in a slash, written with the terminator ("dir//"): ONE slash is the terminator
+			m.Name, m.Slash = r.Pick([]string{"dir/", "a//", "sub/dir/", "x/"}), true
 		}
 		if r.Chance(1, 6) {
 			m.Blank = true
@@ -268,6 +272,9 @@ func (p c13) run(c *core.C, t *core.T, cs c13Case) {
 		if strings.Contains(m.Name, "/") && !m.Slash {
 			c.Cover("name:inner-slash")
 		}
+		if strings.HasSuffix(m.Name, "/") && m.Slash {
+			c.Cover("name:ends-in-slash-before-the-terminator")
+		}
 		if m.Blank {
 			c.Cover("blank-numeric-fields")
 		}
@@ -317,6 +324,9 @@ func (p c13) run(c *core.C, t *core.T, cs c13Case) {
 		if oa, err := deb.LoadAr(bytes.NewReader(outer)); err == nil {
 			oa.Next()
 			if ne, err := oa.Next(); err == nil && ne != nil && ne.Name == "nested.a" {
+				// the caller sniffs the magic first (that is how he knows it is an archive) ...
+				sniff := make([]byte, 8)
+				io.ReadFull(ne.Data, sniff)
 				ia, err := deb.LoadAr(ne.Data)
 				if err != nil {
 					c.Failf("LoadAr on the reader of a member that holds a well-formed archive failed: %v", err)
@@ -338,6 +348,11 @@ func (p c13) run(c *core.C, t *core.T, cs c13Case) {
 					}
 					if strings.Join(names, "|") != strings.Join(want, "|") {
 						c.Failf("an archive opened through the reader of the outer member holding it yields members %q, it has %q", names, want)
+					}
+					// ... and goes on reading where he was: opening and walking the inner archive used ReadAt, which
+					// does not move the reader's own position
+					if rest, err := io.ReadAll(ne.Data); err != nil || !bytes.Equal(rest, inner[8:]) {
+						c.Failf("after 8 bytes were read from a member reader, LoadAr over it and a walk of the inner archive, reading on delivers %d bytes (err %v) that are not the member's bytes from offset 8 on (%d bytes)", len(rest), err, len(inner)-8)
 					}
 					c.Cover("nested-archive-through-member-reader")
 				}
